@@ -1,6 +1,8 @@
 package consul
 
 import (
+	"bytes"
+	"errors"
 	"fmt"
 	"log"
 	"net"
@@ -9,6 +11,7 @@ import (
 	"strconv"
 	"strings"
 
+	"github.com/fabiolb/fabio/route"
 	"github.com/hashicorp/consul/api"
 )
 
@@ -93,17 +96,35 @@ func (r routecmd) build() []string {
 			if weight != "" {
 				cfg += " weight " + weight
 			}
+			// the parser takes the bytes between the quotes as they are
 			if len(svctags) > 0 {
-				cfg += " tags " + strconv.Quote(strings.Join(svctags, ","))
+				cfg += " tags \"" + strings.Join(svctags, ",") + "\""
 			}
 			if len(ropts) > 0 {
-				cfg += " opts " + strconv.Quote(strings.Join(ropts, " "))
+				cfg += " opts \"" + strings.Join(ropts, " ") + "\""
+			}
+
+			// a registration the route commands cannot express is dropped
+			// on its own since the routing table is built from the commands
+			// of all services and a single error there blocks the update
+			if err := validate(cfg); err != nil {
+				log.Printf("[WARN] consul: Skipping route %q of service %q on %s: %s", tag, name, addr, err)
+				continue
 			}
 
 			config = append(config, cfg)
 		}
 	}
 	return config
+}
+
+// validate checks that the route table accepts cmd as a single command.
+func validate(cmd string) error {
+	if strings.ContainsAny(cmd, "\r\n") {
+		return errors.New("route command spans several lines")
+	}
+	_, err := route.NewTable(bytes.NewBufferString(cmd))
+	return err
 }
 
 // parseURLPrefixTag expects an input in the form of 'tag-host/path[ opts]'
